@@ -700,6 +700,15 @@ impl<W: Word, B: AsRef<[W]> + AsMut<[W]>> BitFieldSliceMut<W> for BitFieldVec<W,
             return;
         }
 
+        // The bits of the last word beyond the end of the vector must be
+        // preserved.
+        let residual = (self.len() * bit_width) % W::BITS;
+        let last_word_keep = if residual == 0 {
+            W::ZERO
+        } else {
+            *self.bits.as_ref().get_unchecked(last_word_idx) & (W::MAX << residual)
+        };
+
         let mut write_buffer: W = W::ZERO;
         let mut read_buffer: W = *self.bits.as_ref().get_unchecked(0);
 
@@ -756,7 +765,7 @@ impl<W: Word, B: AsRef<[W]> + AsMut<[W]>> BitFieldSliceMut<W> for BitFieldVec<W,
                 bits_in_buffer += bit_width;
             }
 
-            *self.bits.as_mut().get_unchecked_mut(last_word_idx) = write_buffer;
+            *self.bits.as_mut().get_unchecked_mut(last_word_idx) = write_buffer | last_word_keep;
             return;
         }
 
@@ -831,7 +840,7 @@ impl<W: Word, B: AsRef<[W]> + AsMut<[W]>> BitFieldSliceMut<W> for BitFieldVec<W,
             offset += bit_width;
         }
 
-        *self.bits.as_mut().get_unchecked_mut(last_word_idx) = write_buffer;
+        *self.bits.as_mut().get_unchecked_mut(last_word_idx) = write_buffer | last_word_keep;
     }
 
     type ChunksMut<'a>
